@@ -8,7 +8,8 @@
 (*   - the step function of Trace_Run.tla (trace validation of the code).    *)
 (*                                                                           *)
 (* w.bases : layer -> Seq(layer);  w.life[l] : l has setUp/tearDown hooks    *)
-(* (observable);  w.per[l] : l has testSetUp/testTearDown hooks.             *)
+(* (observable);  w.perUp[l] / w.perDown[l] : l has a testSetUp /            *)
+(* testTearDown hook (a layer may have only one of the two).                 *)
 (* Hook-less layers are unobservable, so every set below is restricted to    *)
 (* the hooked layers; the ancestor relation is NOT restricted (a hook-less   *)
 (* intermediate layer does not open a gap).                                  *)
@@ -16,21 +17,28 @@ EXTENDS Naturals, Sequences, FiniteSets, LayerGraph
 
 Layers(w) == SeqSet(w.layers)
 LifeL(w) == {l \in Layers(w) : w.life[l]}
-PerL(w)  == {l \in Layers(w) : w.per[l]}
+PerUpL(w)   == {l \in Layers(w) : w.perUp[l]}
+PerDownL(w) == {l \in Layers(w) : w.perDown[l]}
 LifeClosure(w, l) == Closure(w.bases, l) \cap LifeL(w)
-PerClosure(w, l)  == Closure(w.bases, l) \cap PerL(w)
+PerUpClosure(w, l)   == Closure(w.bases, l) \cap PerUpL(w)
+PerDownClosure(w, l) == Closure(w.bases, l) \cap PerDownL(w)
 LifeAnc(w, l) == Anc(w.bases, l) \cap LifeL(w)
-PerAnc(w, l)  == Anc(w.bases, l) \cap PerL(w)
+PerUpAnc(w, l) == Anc(w.bases, l) \cap PerUpL(w)
 LifeDesc(w, l) == Desc(w.bases, LifeL(w), l)
 
 (* ----- process state ----------------------------------------------------- *)
 (* su      layers (with life hooks) currently set up                         *)
 (* busy    "", "su" or "td": inside a layer's setUp / tearDown; busyL: which *)
 (* cant    a tearDown raised NotImplementedError in this process             *)
-(* br      the open per-test bracket: layers whose testSetUp ran, in order   *)
+(* br      the current per-test bracket: layers whose testSetUp ran, in order*)
+(* td      layers whose testTearDown ran in this bracket, in order           *)
+(* tl      the layer of the bracket's test ("?" until a test phase is seen:  *)
+(*         decorator-skipped tests never execute any test code)              *)
 (* ph      "idle" | "opening" | "running" | "closing"                        *)
+(* ghosts  brackets that ended without any test phase                        *)
+NoLayer == "?"
 Proc0 == [su |-> {}, busy |-> "", busyL |-> "", cant |-> FALSE,
-          br |-> <<>>, ph |-> "idle"]
+          br |-> <<>>, td |-> <<>>, tl |-> NoLayer, ph |-> "idle", ghosts |-> 0]
 
 (* ----- C01 --------------------------------------------------------------- *)
 SetUpBeginErr(w, s, l) ==
@@ -73,34 +81,85 @@ TestStartErr(w, s, tl) ==
 ProcEndErr(w, s) == IF s.su # {} THEN "C01:left-set-up" ELSE ""
 
 (* ----- C05 --------------------------------------------------------------- *)
-TestSetUpErr(w, s, l) ==
-  IF s.ph \in {"running", "closing"} /\ s.br # <<>>
-  THEN "C05:testSetUp-inside-bracket"
-  ELSE IF l \in SeqSet(s.br) THEN "C05:testSetUp-twice"
-  ELSE IF ~(PerAnc(w, l) \subseteq SeqSet(s.br)) THEN "C05:testSetUp-order"
+(* A bracket is: testSetUp calls (bases first), the test's own phases,       *)
+(* testTearDown calls (exact mirror).  A layer may define only one of the    *)
+(* two hooks; then only that half is observable.  A new bracket begins at a  *)
+(* testSetUp or at the first phase of another test once the current bracket  *)
+(* has seen a test phase or a testTearDown, and the old one must then be     *)
+(* complete.                                                                 *)
+BracketNew(s) ==
+  [s EXCEPT !.br = <<>>, !.td = <<>>, !.tl = NoLayer, !.ph = "idle",
+            !.ghosts = IF s.ph # "idle" /\ s.tl = NoLayer THEN @ + 1 ELSE @]
+
+(* the layers that owe a testTearDown in the current bracket *)
+ExpectDown(w, s) ==
+  IF s.tl # NoLayer THEN PerDownClosure(w, s.tl)
+  ELSE {l \in SeqSet(s.br) : w.perDown[l]}
+
+(* between tests and at process end no bracket may be open *)
+BracketClosedErr(w, s) ==
+  IF s.ph = "idle" THEN ""
+  ELSE IF ~(ExpectDown(w, s) \subseteq SeqSet(s.td)) THEN "C05:unbalanced"
   ELSE ""
 
-TestSetUp(s, l) == [s EXCEPT !.br = Append(s.br, l), !.ph = "opening"]
+Used(s) == s.ph \in {"running", "closing"}
+
+TestSetUpErr(w, s, l) ==
+  IF l \in SeqSet(s.br) THEN "C05:testSetUp-twice"
+  ELSE IF ~(PerUpAnc(w, l) \subseteq SeqSet(s.br)) THEN "C05:testSetUp-order"
+  ELSE ""
+
+(* <<clause, next state>> *)
+(* A testSetUp for a layer that already had one, in a bracket that owes no  *)
+(* testTearDown, opens the bracket after a test that ran no code.           *)
+BrTestSetUp(w, s, l) ==
+  LET again == s.ph = "opening" /\ l \in SeqSet(s.br) /\ BracketClosedErr(w, s) = ""
+      new == Used(s) \/ again
+      ce == IF Used(s) THEN BracketClosedErr(w, s) ELSE ""
+      s1 == IF new THEN BracketNew(s) ELSE s
+  IN <<IF ce # "" THEN ce ELSE TestSetUpErr(w, s1, l),
+       [s1 EXCEPT !.br = Append(s1.br, l), !.ph = "opening"]>>
 
 (* first phase event of a test of layer tl *)
 BracketAtTestErr(w, s, tl) ==
-  IF s.ph = "closing" THEN "C05:test-inside-closing-bracket"
-  ELSE IF SeqSet(s.br) # PerClosure(w, tl) THEN
-       (IF SeqSet(s.br) \subseteq PerClosure(w, tl)
+  IF SeqSet(s.br) # PerUpClosure(w, tl) THEN
+       (IF SeqSet(s.br) \subseteq PerUpClosure(w, tl)
         THEN "C05:test-without-bracket" ELSE "C05:testSetUp-outside-stack")
   ELSE ""
 
-TestRuns(s) == [s EXCEPT !.ph = "running"]
+BrTest(w, s, tl) ==
+  LET ce == IF Used(s) THEN BracketClosedErr(w, s) ELSE ""
+      s1 == IF Used(s) THEN BracketNew(s) ELSE s
+  IN <<IF ce # "" THEN ce ELSE BracketAtTestErr(w, s1, tl),
+       [s1 EXCEPT !.tl = tl, !.ph = "running"]>>
+
+(* a later phase of the bracket's own test *)
+SamePhaseErr(s) ==
+  IF s.ph = "closing" THEN "C05:testTearDown-before-test-end" ELSE ""
+
+IndexIn(q, x) == CHOOSE k \in 1..Len(q) : q[k] = x
 
 TestTearDownErr(w, s, l) ==
-  IF s.br = <<>> THEN "C05:unbalanced"
-  ELSE IF s.br[Len(s.br)] # l THEN "C05:testTearDown-order"
+  LET exp == ExpectDown(w, s) IN
+  IF l \in SeqSet(s.td) THEN "C05:testTearDown-twice"
+  ELSE IF s.tl # NoLayer /\ l \notin exp THEN "C05:testTearDown-outside-stack"
+  ELSE IF w.perUp[l] /\ l \notin SeqSet(s.br) THEN "C05:unbalanced"
+  ELSE IF \E d \in exp \ (SeqSet(s.td) \cup {l}) : l \in Anc(w.bases, d)
+       THEN "C05:testTearDown-order"
+  ELSE IF l \in SeqSet(s.br) /\
+          \E k \in (IndexIn(s.br, l) + 1)..Len(s.br) :
+              w.perDown[s.br[k]] /\ s.br[k] \notin SeqSet(s.td)
+       THEN "C05:testTearDown-order"
   ELSE ""
 
-TestTearDown(s, l) ==
-  LET nb == SubSeq(s.br, 1, Len(s.br) - 1) IN
-  [s EXCEPT !.br = nb, !.ph = IF nb = <<>> THEN "idle" ELSE "closing"]
+(* A testTearDown for a layer that already had one in a complete bracket     *)
+(* opens the bracket of a test that ran no code (decorator skip).            *)
+BrTestTearDown(w, s, l) ==
+  LET again == s.ph = "closing" /\ l \in SeqSet(s.td) /\ BracketClosedErr(w, s) = ""
+      s1 == IF again \/ s.ph = "idle" THEN BracketNew(s) ELSE s
+  IN <<TestTearDownErr(w, s1, l),
+       [s1 EXCEPT !.td = Append(s1.td, l), !.ph = "closing"]>>
 
-(* between tests and at process end no bracket may be open *)
-BracketClosedErr(s) == IF s.br # <<>> THEN "C05:unbalanced" ELSE ""
+(* a layer hook / the process end: whatever bracket there was is over *)
+BrIdle(w, s) == <<BracketClosedErr(w, s), BracketNew(s)>>
 =============================================================================
